@@ -2562,4 +2562,234 @@ theorem C04_blank_examples :
     stopOKw LexRe_mindsdb.cfg 10 [116, 97, 98, 49] = true := by
   decide +kernel
 
+/-! ### a keyword in front of a blank (or any other non-word character), and blank-separated word sequences -/
+
+def stopOKkw (c : Cfg) (d : Nat) (w : List Nat) : Bool :=
+  match splitAtID c.rules with
+  | none => false
+  | some (pre, _, _) =>
+    match firstKwSplit pre w with
+    | none => false
+    | some (a, _, _) =>
+      !c.word.mem d &&
+      a.all (fun r =>
+        (needsOut c.word r.re && noChar d r.re) ||
+        (match kwSets r.re with | some sets => !sets.isEmpty && noChar d r.re | none => false) ||
+        (nonNull r.re && disjointR (first r.re) letterSet) ||
+        blockedLead r.re w d)
+
+/-- **a keyword word inside a text is the token of its keyword rule** when what stands in front is no word character and the
+character behind it passes the decidable per-word condition `stopOKkw` -/
+theorem C04_kw_is_token_at_w (c : Cfg) (hc : classOK c = true) (d : Nat) (pre w rest : List Nat)
+    (hprev : isWordAt c.word pre.head? = false) (hd : stopOKkw c d w = true) (hw : PlainWord w) (r : Rule)
+    (hr : kwRuleOf c w = some r) :
+    firstMatch c.word c.rules ⟨pre, w ++ d :: rest⟩ = some (r, ⟨w.reverse ++ pre, d :: rest⟩) := by
+  unfold classOK at hc
+  unfold kwRuleOf at hr
+  unfold stopOKkw at hd
+  cases hs : splitAtID c.rules with
+  | none => rw [hs] at hc; cases hc
+  | some x =>
+    obtain ⟨prer, idr, post⟩ := x
+    rw [hs] at hc hr hd
+    dsimp only at hr hd
+    simp only [Bool.and_eq_true, List.all_eq_true, Bool.not_eq_true'] at hc
+    obtain ⟨⟨⟨⟨_, _⟩, _⟩, hword⟩, _⟩ := hc
+    obtain ⟨erules, _⟩ := splitAtID_spec hs
+    obtain ⟨hall, c0, t0, ew, hlet⟩ := hw
+    have hW : ∀ x ∈ w, c.word.mem x = true := fun x hx => allMemR_sound hword (hall x hx)
+    cases hfs : firstKwSplit prer w with
+    | none => rw [hfs] at hr; cases hr
+    | some y =>
+      obtain ⟨a, x, b⟩ := y
+      rw [hfs] at hr hd
+      simp only [Option.map_some, Option.some.injEq] at hr
+      subst hr
+      simp only [Bool.and_eq_true, List.all_eq_true, Bool.not_eq_true'] at hd
+      obtain ⟨hWd, hpre⟩ := hd
+      obtain ⟨epre, hhit, hmiss⟩ := firstKwSplit_spec hfs
+      have hnone : ∀ y ∈ a, matchAt c.word y.re ⟨pre, w ++ d :: rest⟩ = none := by
+        intro y hy
+        have hok := hpre y hy
+        simp only [Bool.or_eq_true, Bool.and_eq_true] at hok
+        rcases hok with ((ho | hkw) | hf) | hbl
+        · exact matchAt_none_of_needsOut_at ho.1 ho.2 (fun z hz => mem_sound (hW z hz))
+        · cases hks : kwSets y.re with
+          | none => rw [hks] at hkw; cases hkw
+          | some sets =>
+            rw [hks] at hkw
+            simp only [Bool.and_eq_true, Bool.not_eq_true'] at hkw
+            cases hm : matchAt c.word y.re ⟨pre, w ++ d :: rest⟩ with
+            | none => rfl
+            | some q =>
+              have hne : sets ≠ [] := by
+                intro h0; subst h0; simp at hkw
+              have := kw_match_at hks hne hWd hkw.2 hW hm
+              have hmy := hmiss y hy
+              unfold kwHit at hmy
+              rw [hks] at hmy
+              simp only at this hmy
+              rw [this] at hmy
+              cases hmy
+        · have e : w ++ d :: rest = c0 :: (t0 ++ d :: rest) := by rw [ew]; rfl
+          exact matchAt_none_of_first hf.1 hf.2 (p := ⟨pre, w ++ d :: rest⟩) e hlet
+        · exact matchAt_none_of_blocked hbl pre rest
+      unfold kwHit at hhit
+      cases hks : kwSets x.re with
+      | none => rw [hks] at hhit; cases hhit
+      | some sets =>
+        rw [hks] at hhit
+        simp only at hhit
+        have hne : sets ≠ [] := by
+          intro h0; subst h0; rw [ew] at hhit; simp [kwMatch] at hhit
+        have hxm := kw_matches_at hks hne hWd (pre := pre) (u := w) (rest := rest) hprev hhit hW
+        rw [erules, epre]
+        simp only [List.append_assoc, List.cons_append]
+        rw [firstMatch_skip a _ hnone]
+        simp [firstMatch, hxm]
+
+/-- examples on the live MindsDB rules, in front of a blank: `select`, `from`, `where`, `limit`, `and` are fine; `group`, `order`, `not`, `is`
+can continue into a multi-word keyword -/
+theorem C04_kw_blank_examples :
+    stopOKkw LexRe_mindsdb.cfg 32 [115, 101, 108, 101, 99, 116] = true ∧
+    stopOKkw LexRe_mindsdb.cfg 32 [70, 82, 79, 77] = true ∧
+    stopOKkw LexRe_mindsdb.cfg 32 [119, 104, 101, 114, 101] = true ∧
+    stopOKkw LexRe_mindsdb.cfg 32 [108, 105, 109, 105, 116] = true ∧
+    stopOKkw LexRe_mindsdb.cfg 32 [97, 110, 100] = true ∧
+    stopOKkw LexRe_mindsdb.cfg 32 [103, 114, 111, 117, 112] = false ∧
+    stopOKkw LexRe_mindsdb.cfg 32 [110, 111, 116] = false := by
+  decide +kernel
+
+open MindsVerif.Props.C02Lex in
+theorem Steps_append {c : Cfg} : ∀ {p q e : Pos} {s1 s2 : List Seg}, Steps c p s1 q → Steps c q s2 e → Steps c p (s1 ++ s2) e := by
+  intro p q e s1 s2 h1 h2
+  induction h1 with
+  | nil p => simpa using h2
+  | cons hs _ ih => exact Steps.cons hs (ih h2)
+
+theorem ignore_letter {c : Cfg} (hc : classOK c = true) {c0 : Nat} (hlet : inSet letterSet c0) : c.ignore.mem c0 = false := by
+  unfold classOK at hc
+  cases hs : splitAtID c.rules with
+  | none => rw [hs] at hc; cases hc
+  | some x =>
+    obtain ⟨prer, idr, post⟩ := x
+    rw [hs] at hc
+    simp only [Bool.and_eq_true] at hc
+    cases h : c.ignore.mem c0 with
+    | false => rfl
+    | true => exact (disjointR_sound hc.2 (mem_sound h) hlet).elim
+
+/-- the token a blank-terminated word becomes: its keyword rule's, or `ID` -/
+def wordSeg (c : Cfg) (w : List Nat) : Seg :=
+  match kwRuleOf c w with
+  | some r => .tok r.name r.ignored w
+  | none => .tok "ID" false w
+
+/-- the decidable per-word condition in front of a blank -/
+def wordOK (c : Cfg) (w : List Nat) : Bool :=
+  match kwRuleOf c w with
+  | some _ => stopOKkw c 32 w
+  | none => stopOKw c 32 w && !isKw c w
+
+def wordsText (ws : List (List Nat)) (rest : List Nat) : List Nat := ws.foldr (fun w acc => w ++ 32 :: acc) rest
+def wordsSegs (c : Cfg) (ws : List (List Nat)) : List Seg := ws.flatMap fun w => [wordSeg c w, .skip 32]
+
+open MindsVerif.Props.C02Lex in
+/-- a sequence of blank-terminated words, keywords and names mixed, in front of any remaining text -/
+theorem words_steps (c : Cfg) (hc : classOK c = true) (hign : c.ignore.mem 32 = true) (hW32 : c.word.mem 32 = false) :
+    ∀ (ws : List (List Nat)), (∀ w ∈ ws, PlainWord w ∧ wordOK c w = true) →
+    ∀ (pre : List Nat), isWordAt c.word pre.head? = false → ∀ rest : List Nat,
+      Steps c ⟨pre, wordsText ws rest⟩ (wordsSegs c ws) ⟨(wordsText ws []).reverse ++ pre, rest⟩ := by
+  intro ws
+  induction ws with
+  | nil => intro _ pre _ rest; simpa [wordsText, wordsSegs] using Steps.nil (c := c) ⟨pre, rest⟩
+  | cons w ws ih =>
+    intro hall pre hprev rest
+    obtain ⟨hw, hok⟩ := hall w List.mem_cons_self
+    obtain ⟨hpl, c0, t0, ew, hlet⟩ := hw
+    have hig0 : c.ignore.mem c0 = false := ignore_letter hc hlet
+    have hprev' : isWordAt c.word (32 :: (w.reverse ++ pre)).head? = false := by simp [isWordAt, hW32]
+    have hrest := ih (fun x hx => hall x (List.mem_cons_of_mem _ hx)) (32 :: (w.reverse ++ pre)) hprev' rest
+    have hskip : Step c ⟨w.reverse ++ pre, 32 :: wordsText ws rest⟩ (.skip 32) ⟨32 :: (w.reverse ++ pre), wordsText ws rest⟩ :=
+      Step.skip _ 32 _ hign
+    have hend : (wordsText (w :: ws) []).reverse ++ pre = (wordsText ws []).reverse ++ 32 :: (w.reverse ++ pre) := by
+      simp [wordsText]
+    have hstep : Step c ⟨pre, w ++ 32 :: wordsText ws rest⟩ (wordSeg c w) ⟨w.reverse ++ pre, 32 :: wordsText ws rest⟩ := by
+      unfold wordOK at hok
+      unfold wordSeg
+      cases hk : kwRuleOf c w with
+      | some r =>
+        rw [hk] at hok
+        have hfm := C04_kw_is_token_at_w c hc 32 pre w (wordsText ws rest) hprev hok ⟨hpl, c0, t0, ew, hlet⟩ r hk
+        have := Step.tok ⟨pre, w ++ 32 :: wordsText ws rest⟩ c0 (t0 ++ 32 :: wordsText ws rest) r _ (by rw [ew]; rfl) hig0 hfm
+          (by rw [ew]; simp <;> omega)
+        rw [between_adv] at this
+        exact this
+      | none =>
+        rw [hk] at hok
+        simp only [Bool.and_eq_true, Bool.not_eq_true'] at hok
+        obtain ⟨idr, hn, hi, hfm⟩ := C04_word_is_ID_at_w c hc 32 pre w (wordsText ws rest) hok.1 ⟨hpl, c0, t0, ew, hlet⟩ hok.2
+        have := Step.tok ⟨pre, w ++ 32 :: wordsText ws rest⟩ c0 (t0 ++ 32 :: wordsText ws rest) idr _ (by rw [ew]; rfl) hig0 hfm
+          (by rw [ew]; simp <;> omega)
+        rw [between_adv, hn, hi] at this
+        exact this
+    rw [hend]
+    show Steps c ⟨pre, w ++ 32 :: wordsText ws rest⟩ (wordSeg c w :: .skip 32 :: wordsSegs c ws) _
+    exact Steps.cons hstep (Steps.cons hskip hrest)
+
+open MindsVerif.Props.C02Lex in
+/-- **blank-separated keywords and names ending in a name lex to the expected token list** — every rule list with `classOK`
+whose `ignore` holds the blank, every word sequence that passes the per-word condition -/
+theorem C04_words_lex (c : Cfg) (hc : classOK c = true) (hign : c.ignore.mem 32 = true) (hW32 : c.word.mem 32 = false)
+    (ws : List (List Nat)) (hall : ∀ w ∈ ws, PlainWord w ∧ wordOK c w = true) (t : List Nat) (ht : PlainWord t)
+    (hk : isKw c t = false) : lex c (wordsText ws t) = .ok (wordsSegs c ws ++ [.tok "ID" false t]) := by
+  have h1 := words_steps c hc hign hW32 ws hall [] (by simp [isWordAt]) t
+  obtain ⟨idr, hn, hi, hfm⟩ := C04_word_is_ID_end c hc ((wordsText ws []).reverse ++ []) t ht hk
+  obtain ⟨_, c0, t0, ew, hlet⟩ := ht
+  have h2 : Step c ⟨(wordsText ws []).reverse ++ [], t⟩ (.tok "ID" false t) ⟨t.reverse ++ ((wordsText ws []).reverse ++ []), []⟩ := by
+    have := Step.tok ⟨(wordsText ws []).reverse ++ [], t⟩ c0 t0 idr _ ew (ignore_letter hc hlet) hfm (by rw [ew]; simp)
+    have hb := between_adv ((wordsText ws []).reverse ++ []) t []
+    simp only [List.append_nil] at hb this
+    rw [hb, hn, hi] at this
+    simpa using this
+  exact steps_lex c _ _ _ (Steps_append h1 (Steps.cons h2 (Steps.nil _))) rfl
+
+/-- a concrete word is plain when the executable membership test says so -/
+theorem plainWord_of_mem (w : List Nat) (c0 : Nat) (t0 : List Nat) (ew : w = c0 :: t0)
+    (h : (w.all fun c => plainSet.mem c) = true) (hl : letterSet.mem c0 = true) : PlainWord w :=
+  ⟨fun c hc => mem_sound (List.all_eq_true.mp h c hc), c0, t0, ew, mem_sound hl⟩
+
+/-- **`select <a> from <t>`**, any case of the keywords aside: for all names `a`, `t` that are no keywords (and `a` blank-safe), the live
+MindsDB lexer yields SELECT, ID, FROM, ID -/
+theorem C04_select_from_mindsdb (a t : List Nat) (ha : PlainWord a) (hab : stopOKw LexRe_mindsdb.cfg 32 a = true)
+    (hak : isKw LexRe_mindsdb.cfg a = false) (hanone : kwRuleOf LexRe_mindsdb.cfg a = none)
+    (ht : PlainWord t) (htk : isKw LexRe_mindsdb.cfg t = false) :
+    lex LexRe_mindsdb.cfg ([115, 101, 108, 101, 99, 116, 32] ++ a ++ [32, 102, 114, 111, 109, 32] ++ t) =
+      .ok [.tok "SELECT" false [115, 101, 108, 101, 99, 116], .skip 32, .tok "ID" false a, .skip 32,
+           .tok "FROM" false [102, 114, 111, 109], .skip 32, .tok "ID" false t] := by
+  have hsel : PlainWord [115, 101, 108, 101, 99, 116] ∧ wordOK LexRe_mindsdb.cfg [115, 101, 108, 101, 99, 116] = true :=
+    ⟨plainWord_of_mem _ 115 _ rfl (by decide) (by decide), by decide +kernel⟩
+  have hfrom : PlainWord [102, 114, 111, 109] ∧ wordOK LexRe_mindsdb.cfg [102, 114, 111, 109] = true :=
+    ⟨plainWord_of_mem _ 102 _ rfl (by decide) (by decide), by decide +kernel⟩
+  have hao : wordOK LexRe_mindsdb.cfg a = true := by unfold wordOK; rw [hanone]; simp [hab, hak]
+  have := C04_words_lex LexRe_mindsdb.cfg classOK_mindsdb (by decide +kernel) (by decide +kernel)
+    [[115, 101, 108, 101, 99, 116], a, [102, 114, 111, 109]]
+    (by intro w hw; simp only [List.mem_cons, List.not_mem_nil, or_false] at hw
+        rcases hw with rfl | rfl | rfl
+        · exact hsel
+        · exact ⟨ha, hao⟩
+        · exact hfrom) t ht htk
+  have e1 : wordSeg LexRe_mindsdb.cfg [115, 101, 108, 101, 99, 116] = .tok "SELECT" false [115, 101, 108, 101, 99, 116] := by decide +kernel
+  have e2 : wordSeg LexRe_mindsdb.cfg [102, 114, 111, 109] = .tok "FROM" false [102, 114, 111, 109] := by decide +kernel
+  have e3 : wordSeg LexRe_mindsdb.cfg a = .tok "ID" false a := by unfold wordSeg; rw [hanone]
+  simpa [wordsText, wordsSegs, e1, e2, e3] using this
+
+/-- non-vacuity: `col1` and `tab1` meet every hypothesis of `C04_select_from_mindsdb` -/
+theorem C04_select_from_example :
+    lex LexRe_mindsdb.cfg ([115, 101, 108, 101, 99, 116, 32] ++ [99, 111, 108, 49] ++ [32, 102, 114, 111, 109, 32] ++ [116, 97, 98, 49]) =
+      .ok [.tok "SELECT" false [115, 101, 108, 101, 99, 116], .skip 32, .tok "ID" false [99, 111, 108, 49], .skip 32,
+           .tok "FROM" false [102, 114, 111, 109], .skip 32, .tok "ID" false [116, 97, 98, 49]] :=
+  C04_select_from_mindsdb _ _ (plainWord_of_mem _ 99 _ rfl (by decide) (by decide)) (by decide +kernel) (by decide +kernel)
+    (by decide +kernel) (plainWord_of_mem _ 116 _ rfl (by decide) (by decide)) (by decide +kernel)
+
 end MindsVerif.Props.C04Lex
